@@ -129,6 +129,19 @@ func (w *c02World) checkTxJSON(tx *cargen.TxTruth, bt int64, enc string, got map
 		if c02Exact(m["preBalances"]) != c02U64s(tx.PreBalances) || c02Exact(m["postBalances"]) != c02U64s(tx.PostBalances) {
 			return &c02Finding{"meta-balances", fmt.Sprintf("%s sig %s: preBalances %v postBalances %v, archived %v / %v", where, tx.Sig, m["preBalances"], m["postBalances"], tx.PreBalances, tx.PostBalances)}
 		}
+		if tx.TokenUiAmount != 0 {
+			var ui interface{}
+			if tbs, _ := m["preTokenBalances"].([]interface{}); len(tbs) > 0 {
+				if tb, _ := tbs[0].(map[string]interface{}); tb != nil {
+					if uta, _ := tb["uiTokenAmount"].(map[string]interface{}); uta != nil {
+						ui = uta["uiAmount"]
+					}
+				}
+			}
+			if f, ok := ui.(float64); !ok || f != tx.TokenUiAmount {
+				return &c02Finding{"meta-token-amount", fmt.Sprintf("%s sig %s: preTokenBalances[0].uiTokenAmount.uiAmount %v, archived %v", where, tx.Sig, ui, tx.TokenUiAmount)}
+			}
+		}
 		logs, _ := m["logMessages"].([]interface{})
 		if len(logs) != len(tx.Logs) {
 			return &c02Finding{"meta-logs", fmt.Sprintf("%s sig %s: %d log messages, archived %d", where, tx.Sig, len(logs), len(tx.Logs))}
